@@ -98,6 +98,8 @@ fn programs() -> Vec<(Program, bool)> {
         v.push((p, f));
     }
     v.push(mk("2 readers x2 hits/pool2/buffer1", 2, 1, None, false, vec![vec![g(1), g(1)], vec![g(2), g(1)]]));
+    // a pool size that is not a power of two (the buffer index is a data choice over 0..pool)
+    v.push(mk("reader x3 hits/pool3/buffer1", 3, 1, None, false, vec![vec![g(1), g(1), g(2)]]));
     v.push(mk("2 readers x3 (hit,miss,hit)/pool1/buffer2", 1, 2, None, false, vec![vec![g(1), g(3), g(1)], vec![g(2), g(1), g(3)]]));
     v.push(mk("2 readers x3 hits/pool1/buffer1/channel1/consumer-stopped", 1, 1, Some(1), true, vec![vec![g(1), g(1), g(1)], vec![g(2), g(2), g(2)]]));
     v.push(mk("2 readers x2 hits/pool2/buffer1/channel1/consumer-stopped", 2, 1, Some(1), true, vec![vec![g(1), g(1)], vec![g(2), g(2)]]));
@@ -182,7 +184,7 @@ pub fn def(ctx: &Ctx) -> PropertyDef {
                 program_scenario(p, oracle(frozen), move |c| crate::harness::ilv::tier_cfg(c, nthreads))
             });
     }
-    for (pool, buffer) in [(1usize, 1usize), (1, 2), (1, 3)] {
+    for (pool, buffer) in [(1usize, 1usize), (1, 2), (1, 3), (3, 1)] {
         let name = seq_spec(ctx, pool, buffer).name;
         scenarios.push(seq_scenario(move |c| seq_spec(c, pool, buffer), &name));
     }
